@@ -660,7 +660,33 @@ func ruleLookupPanics(cx *Ctx) []Obligation {
 			return []Obligation{bad(key, desc, "falling out of the registry iteration does not panic", P.Pos(fn.Pos()))}
 		}
 	}
-	return []Obligation{good(key, desc, P.FnName(fn)+" "+P.Pos(fn.Pos())), good("C18/lookup/matches-raw-id", "the registry patterns are matched against the gate identifier itself (no rewritten or truncated copy)", P.FnName(fn))}
+	// a matched identifier goes to its handler: the lookup itself refuses only when nothing matched. A refusal between
+	// the match and the handler call — keyed on a capture name, say — rejects identifiers of supported gates whose
+	// pattern happens to use that name for something else; what a handler refuses is the handler's (tabled) business.
+	var done []*ssa.BasicBlock
+	for _, b := range fn.Blocks {
+		if strings.Contains(b.Comment, "rangeiter.done") {
+			done = append(done, b)
+		}
+	}
+	rkey := "C18/lookup/match-goes-to-handler"
+	rdesc := "the lookup refuses only when no pattern matched: between a successful match and the call of its handler there is no refusal of the lookup's own (every identifier a pattern matches reaches that pattern's handler)"
+	for _, b := range fn.Blocks {
+		if _, isPanic := b.Instrs[len(b.Instrs)-1].(*ssa.Panic); !isPanic {
+			continue
+		}
+		after := false
+		for _, d := range done {
+			if d == b || d.Dominates(b) {
+				after = true
+			}
+		}
+		if !after {
+			return []Obligation{good(key, desc, P.FnName(fn)+" "+P.Pos(fn.Pos())), good("C18/lookup/matches-raw-id", "the registry patterns are matched against the gate identifier itself (no rewritten or truncated copy)", P.FnName(fn)),
+				bad(rkey, rdesc, "the lookup panics for a matched identifier before its handler is called", P.Pos(b.Instrs[len(b.Instrs)-1].Pos()))}
+		}
+	}
+	return []Obligation{good(key, desc, P.FnName(fn)+" "+P.Pos(fn.Pos())), good("C18/lookup/matches-raw-id", "the registry patterns are matched against the gate identifier itself (no rewritten or truncated copy)", P.FnName(fn)), good(rkey, rdesc, P.FnName(fn))}
 }
 
 // (v) parameter flow: capture group → checked numeric parse → tabled field of the constructed gate
